@@ -305,7 +305,6 @@ func (ex *Exec) enterLoop(fr *Frame, h *ssa.BasicBlock, in *State) *State {
 		}
 	}
 	fr.headNew[ord] = ex.nextObj
-	ex.heapOlder(st)
 	r := Fresh("inloop", SBool)
 	ex.fact(nil, Implies(r, in.reach))
 	st.reach = r
@@ -313,9 +312,11 @@ func (ex *Exec) enterLoop(fr *Frame, h *ssa.BasicBlock, in *State) *State {
 	if spec != nil {
 		env := ex.loopEnv(fr, h, st)
 		env.head = st
+		ex.olderAtLoad = true
 		for _, cl := range spec.Invariants {
 			ex.fact(st, env.evalBool(cl.Text))
 		}
+		ex.olderAtLoad = false
 	}
 	return st
 }
